@@ -40,6 +40,10 @@ def handle (toks : List String) : Option String :=
     -- harness evaluates the property's relation on the real run (verdict and the reported
     -- source / line come from the library's parse_file)
     some "lintinc"
+  | ["clififo", _] =>
+    -- the script file is a named pipe: judged by the harness relation (executable = library on
+    -- the same pipe), the model's answer is the constant the relation prints when it holds
+    some "fifo-ok"
   | ["repl", _] =>
     -- no arguments = the interactive loop (`C20_dispatch`); what the loop prints is compared by
     -- the harness with the library run of the same lines (the model does not run SDK commands)
